@@ -1,1 +1,416 @@
-(* C20 stub: to be written *)
+(* C20 -- Invalid inputs are rejected with an error, never simulated.
+   Only statements, each closed by [exact], followed by Print Assumptions.
+   reject_<class>: every member of the class (any magnitude, any position in the array argument,
+   any batch shape) is refused by the guard; accept_<boundary>: the adjacent valid values pass;
+   *_unguarded / offset_accepts_any / *_is_zero_shift: the exact gaps of the guards of the code that exists. *)
+From Coq Require Import List ZArith QArith Qcanon Qabs Bool String.
+From EPG Require Import Scalar QI Validate ValidateProofs.
+Import ListNotations.
+
+Theorem C20_reject_negative_duration pre x post :
+  x < 0 -> duration_ok (Some (pre ++ x :: post)) = Reject ValueError.
+Proof. exact (reject_negative_duration pre x post). Qed.
+Print Assumptions C20_reject_negative_duration.
+
+Theorem C20_accept_nonnegative_duration l :
+  (forall d, In d l -> 0 <= d) -> duration_ok (Some l) = Accept.
+Proof. exact (accept_nonnegative_duration l). Qed.
+Print Assumptions C20_accept_nonnegative_duration.
+
+Theorem C20_duration_accept_iff l :
+  duration_ok (Some l) = Accept <-> (forall d, In d l -> 0 <= d).
+Proof. exact (duration_accept_iff l). Qed.
+Print Assumptions C20_duration_accept_iff.
+
+Theorem C20_accept_zero_duration n : duration_ok (Some (repeat 0 n)) = Accept /\ duration_ok None = Accept.
+Proof. exact (accept_zero_duration n). Qed.
+Print Assumptions C20_accept_zero_duration.
+
+Theorem C20_reject_negative_tau_as_duration pre x post :
+  x < 0 -> timed_op_ok DTrue (pre ++ x :: post) = Reject ValueError.
+Proof. exact (reject_negative_tau_as_duration pre x post). Qed.
+Print Assumptions C20_reject_negative_tau_as_duration.
+
+(* gap: E, P, D, X do not guard tau itself *)
+Theorem C20_negative_tau_unguarded tau : timed_op_ok DNone tau = Accept.
+Proof. exact (negative_tau_unguarded tau). Qed.
+Print Assumptions C20_negative_tau_unguarded.
+
+(* Offset accepts negative durations by design *)
+Theorem C20_offset_accepts_any d : offset_ok d = Accept.
+Proof. exact (offset_accepts_any d). Qed.
+Print Assumptions C20_offset_accepts_any.
+
+Theorem C20_reject_zero_shift isf sh data d :
+  (forall x, In x data -> Qabs x <= atol) -> S_ok (KArr isf sh data) d = Reject TypeError.
+Proof. exact (reject_zero_shift isf sh data d). Qed.
+Print Assumptions C20_reject_zero_shift.
+
+Theorem C20_reject_zero_shift_int d : S_ok (KInt 0) d = Reject TypeError.
+Proof. exact (reject_zero_shift_int d). Qed.
+Print Assumptions C20_reject_zero_shift_int.
+
+Theorem C20_accept_nonzero_int_shift z : z <> 0%Z -> S_ok (KInt z) None = Accept.
+Proof. exact (accept_nonzero_int_shift z). Qed.
+Print Assumptions C20_accept_nonzero_int_shift.
+
+(* a zero row (within the allclose tolerance) at any position b of a batch of shifts, any kdim *)
+Theorem C20_reject_zero_shift_row k d b :
+  (b < List.length (k_data k) / kdim_of k)%nat ->
+  (forall c, (c < kdim_of k)%nat -> Qabs (nth (b * kdim_of k + c) (k_data k) 0) <= atol) ->
+  S_ok k d = Reject TypeError.
+Proof. exact (reject_zero_shift_row k d b). Qed.
+Print Assumptions C20_reject_zero_shift_row.
+
+Theorem C20_reject_too_many_components isf sh data d :
+  (4 < lastd (atleast_2d sh))%nat -> exists e, S_ok (KArr isf sh data) d = Reject e.
+Proof. exact (reject_too_many_components isf sh data d). Qed.
+Print Assumptions C20_reject_too_many_components.
+
+Theorem C20_reject_too_many_components_class isf sh data d :
+  (4 < lastd (atleast_2d sh))%nat -> allclose0 data = false -> any_zero_row (KArr isf sh data) = false ->
+  S_ok (KArr isf sh data) d = Reject ValueError.
+Proof. exact (reject_too_many_components_class isf sh data d). Qed.
+Print Assumptions C20_reject_too_many_components_class.
+
+Theorem C20_accept_four_components isf sh data :
+  lastd (atleast_2d sh) = 4%nat -> kdim_ok (KArr isf sh data) = true.
+Proof. exact (accept_four_components isf sh data). Qed.
+Print Assumptions C20_accept_four_components.
+
+Theorem C20_reject_negative_tau_G c tsh pre x post gsh g d :
+  x < 0 -> G_ok c tsh (pre ++ x :: post) gsh g d = Reject ValueError.
+Proof. exact (reject_negative_tau_G c tsh pre x post gsh g d). Qed.
+Print Assumptions C20_reject_negative_tau_G.
+
+Theorem C20_reject_negative_tau_C tsh pre x post d :
+  x < 0 -> C_ok tsh (pre ++ x :: post) d = Reject ValueError.
+Proof. exact (reject_negative_tau_C tsh pre x post d). Qed.
+Print Assumptions C20_reject_negative_tau_C.
+
+Theorem C20_reject_gradient_components c tsh tau a gsh g d :
+  (3 < lastd (a :: gsh))%nat -> G_ok c tsh tau (a :: gsh) g d = Reject ValueError.
+Proof. exact (reject_gradient_components c tsh tau a gsh g d). Qed.
+Print Assumptions C20_reject_gradient_components.
+
+(* the two clauses of the property meet: tau = 0 passes the time guard and is a zero shift *)
+Theorem C20_G_tau_zero_is_zero_shift c g d :
+  G_ok c [] [0] [] g d = Reject TypeError.
+Proof. exact (G_tau_zero_is_zero_shift c g d). Qed.
+Print Assumptions C20_G_tau_zero_is_zero_shift.
+
+Theorem C20_C_tau_zero_is_zero_shift d : C_ok [] [0] d = Reject TypeError.
+Proof. exact (C_tau_zero_is_zero_shift d). Qed.
+Print Assumptions C20_C_tau_zero_is_zero_shift.
+
+(* ------------------------------------------------------------------ 5. float shift without a grid *)
+Theorem C20_reject_float_shift_without_grid sh data c :
+  S_apply_ok (KArr true sh data) c None None = Reject AttributeError.
+Proof. exact (reject_float_shift_without_grid sh data c). Qed.
+Print Assumptions C20_reject_float_shift_without_grid.
+
+Theorem C20_reject_any_shift_on_float_coords_without_grid k :
+  S_apply_ok k CFloat None None = Reject AttributeError.
+Proof. exact (reject_any_shift_on_float_coords_without_grid k). Qed.
+Print Assumptions C20_reject_any_shift_on_float_coords_without_grid.
+
+Theorem C20_accept_float_shift_with_grid k c g other :
+  Qeq_bool g 0 = false ->
+  S_apply_ok k c (Some g) other = Accept /\ S_apply_ok k c None (Some g) = Accept.
+Proof. exact (accept_float_shift_with_grid k c g other). Qed.
+Print Assumptions C20_accept_float_shift_with_grid.
+
+Theorem C20_accept_int_shift_without_grid z c : c <> CFloat -> S_apply_ok (KInt z) c None None = Accept.
+Proof. exact (accept_int_shift_without_grid z c). Qed.
+Print Assumptions C20_accept_int_shift_without_grid.
+
+Theorem C20_reject_states_zero_dim data : states_ok [] data = Reject IndexError.
+Proof. exact (reject_states_zero_dim data). Qed.
+Print Assumptions C20_reject_states_zero_dim.
+
+Theorem C20_reject_states_vector m data : m <> 3%nat -> states_ok [m] data = Reject ValueError.
+Proof. exact (reject_states_vector m data). Qed.
+Print Assumptions C20_reject_states_vector.
+
+Theorem C20_reject_states_columns s n c data : c <> 3%nat -> states_ok (s ++ [n; c]) data = Reject ValueError.
+Proof. exact (reject_states_columns s n c data). Qed.
+Print Assumptions C20_reject_states_columns.
+
+Theorem C20_reject_states_even s n c data : Nat.even n = true -> states_ok (s ++ [n; c]) data = Reject ValueError.
+Proof. exact (reject_states_even s n c data). Qed.
+Print Assumptions C20_reject_states_even.
+
+(* a broken F+/F- or Z symmetry in any batch entry b and any state i *)
+Theorem C20_reject_states_asym_F s n data b i :
+  (b < prodn s)%nat -> (i < n)%nat -> fsym_at data n b i = false ->
+  exists e, states_ok (s ++ [n; 3%nat]) data = Reject e.
+Proof. exact (reject_states_asym_F s n data b i). Qed.
+Print Assumptions C20_reject_states_asym_F.
+
+Theorem C20_reject_states_asym_Z s n data b i :
+  (b < prodn s)%nat -> (i < n)%nat -> zsym_at data n b i = false ->
+  exists e, states_ok (s ++ [n; 3%nat]) data = Reject e.
+Proof. exact (reject_states_asym_Z s n data b i). Qed.
+Print Assumptions C20_reject_states_asym_Z.
+
+Theorem C20_accept_states s n data :
+  Nat.even n = false ->
+  (forall b i, (b < prodn s)%nat -> (i < n)%nat -> fsym_at data n b i = true /\ zsym_at data n b i = true) ->
+  states_ok (s ++ [n; 3%nat]) data = Accept.
+Proof. exact (accept_states s n data). Qed.
+Print Assumptions C20_accept_states.
+
+(* ------------------------------------------------------------------ 7./8. operator coefficients *)
+Theorem C20_reject_scalar_coef_columns s c data a0 :
+  c <> 3%nat -> scalar_coef_ok (s ++ [c], data) a0 = Reject ValueError.
+Proof. exact (reject_scalar_coef_columns s c data a0). Qed.
+Print Assumptions C20_reject_scalar_coef_columns.
+
+Theorem C20_reject_scalar_coef_zero_dim data a0 : scalar_coef_ok ([], data) a0 = Reject ValueError.
+Proof. exact (reject_scalar_coef_zero_dim data a0). Qed.
+Print Assumptions C20_reject_scalar_coef_zero_dim.
+
+Theorem C20_reject_scalar_coef_asym x (s : list nat) data a0 b c :
+  (b < prodn (x :: s))%nat -> (c < 3)%nat -> ssym_at data b c = false ->
+  scalar_coef_ok (x :: s ++ [3%nat], data) a0 = Reject ValueError.
+Proof. exact (reject_scalar_coef_asym x s data a0 b c). Qed.
+Print Assumptions C20_reject_scalar_coef_asym.
+
+Theorem C20_reject_matrix_coef_shape (s : list nat) a b data a0 :
+  (a <> 3%nat \/ b <> 3%nat) -> matrix_coef_ok (s ++ [a; b], data) a0 = Reject ValueError.
+Proof. exact (reject_matrix_coef_shape s a b data a0). Qed.
+Print Assumptions C20_reject_matrix_coef_shape.
+
+Theorem C20_reject_matrix_coef_asym (s : list nat) data a0 b ij :
+  (b < prodn s)%nat -> (ij < 9)%nat -> msym_at data b ij = false -> s <> [] ->
+  matrix_coef_ok (s ++ [3; 3]%nat, data) a0 = Reject ValueError.
+Proof. exact (reject_matrix_coef_asym s data a0 b ij). Qed.
+Print Assumptions C20_reject_matrix_coef_asym.
+
+(* ------------------------------------------------------------------ 9. operator / state shapes *)
+Theorem C20_reject_not_a_statematrix s1 s2 : prepare_ok false s1 s2 = Reject TypeError.
+Proof. exact (reject_not_a_statematrix s1 s2). Qed.
+Print Assumptions C20_reject_not_a_statematrix.
+
+Theorem C20_reject_nonbroadcastable s1 s2 i :
+  let n := Nat.max (List.length s1) (List.length s2) in
+  (i < n)%nat -> dims_compat (dim_app n s1 i) (dim_app n s2 i) = false ->
+  prepare_ok true s1 s2 = Reject ValueError.
+Proof. exact (reject_nonbroadcastable s1 s2 i). Qed.
+Print Assumptions C20_reject_nonbroadcastable.
+
+(* a mismatch on the trailing axis, whatever precedes it *)
+Theorem C20_reject_trailing_axis_mismatch (s : list nat) a b :
+  a <> 1%nat -> b <> 1%nat -> a <> b -> prepare_ok true (s ++ [a]) (s ++ [b]) = Reject ValueError.
+Proof. exact (reject_trailing_axis_mismatch s a b). Qed.
+Print Assumptions C20_reject_trailing_axis_mismatch.
+
+Theorem C20_accept_same_shape s : prepare_ok true s s = Accept.
+Proof. exact (accept_same_shape s). Qed.
+Print Assumptions C20_accept_same_shape.
+
+(* a non-operator item at any position of a MultiOperator *)
+Theorem C20_reject_multi_non_operator items : forall cur,
+  In None items -> exists e, multi_ok cur items = Reject e.
+Proof. exact (reject_multi_non_operator items). Qed.
+Print Assumptions C20_reject_multi_non_operator.
+
+(* ------------------------------------------------------------------ 10. kinetic matrices *)
+Theorem C20_reject_negative_rate q : q < 0 -> khi_ok (KhiScalar q) = Reject ValueError.
+Proof. exact (reject_negative_rate q). Qed.
+Print Assumptions C20_reject_negative_rate.
+
+Theorem C20_accept_zero_rate : khi_ok (KhiScalar 0) = Accept.
+Proof. exact (accept_zero_rate ). Qed.
+Print Assumptions C20_accept_zero_rate.
+
+Theorem C20_reject_khi_vector n data : khi_ok (KhiArr [n] data) = Reject ValueError.
+Proof. exact (reject_khi_vector n data). Qed.
+Print Assumptions C20_reject_khi_vector.
+
+Theorem C20_reject_khi_not_square s r n data : r <> n -> khi_ok (KhiArr (s ++ [r; n]) data) = Reject ValueError.
+Proof. exact (reject_khi_not_square s r n data). Qed.
+Print Assumptions C20_reject_khi_not_square.
+
+(* a column that does not sum to zero, in any batch entry *)
+Theorem C20_reject_khi_column_sum s n data b j :
+  (b < prodn s)%nat -> (j < n)%nat -> close0 (colsum data n b j) = false ->
+  khi_ok (KhiArr (s ++ [n; n]) data) = Reject ValueError.
+Proof. exact (reject_khi_column_sum s n data b j). Qed.
+Print Assumptions C20_reject_khi_column_sum.
+
+(* tau = 0 is accepted for every valid kinetic matrix, un-batched or batched *)
+Theorem C20_accept_tau_zero khi d :
+  khi_ok khi = Accept -> (d = DNone \/ d = DTrue) -> X_ok 0 khi d = Accept.
+Proof. exact (accept_tau_zero khi d). Qed.
+Print Assumptions C20_accept_tau_zero.
+
+Theorem C20_accept_tau_zero_batched (s : list nat) n data d :
+  khi_ok (KhiArr (s ++ [n; n]) data) = Accept -> (d = DNone \/ d = DTrue) ->
+  X_ok 0 (KhiArr (s ++ [n; n]) data) d = Accept.
+Proof. exact (accept_tau_zero_batched s n data d). Qed.
+Print Assumptions C20_accept_tau_zero_batched.
+
+(* the equilibrium is not conserved: some row of khi . density is not zero *)
+Theorem C20_reject_not_conserving n data dens i :
+  List.length dens = n -> (i < n)%nat -> close0 (rowdot data n dens i) = false ->
+  X_apply_ok n data dens = Reject RuntimeError.
+Proof. exact (reject_not_conserving n data dens i). Qed.
+Print Assumptions C20_reject_not_conserving.
+
+Theorem C20_accept_conserving n data dens :
+  List.length dens = n -> (forall i, (i < n)%nat -> close0 (rowdot data n dens i) = true) ->
+  X_apply_ok n data dens = Accept.
+Proof. exact (accept_conserving n data dens). Qed.
+Print Assumptions C20_accept_conserving.
+
+(* ------------------------------------------------------------------ 11. diffusion *)
+Theorem C20_reject_D_vector t n k : D_shape_ok t [n] k = Reject ValueError.
+Proof. exact (reject_D_vector t n k). Qed.
+Print Assumptions C20_reject_D_vector.
+
+Theorem C20_reject_D_not_square t (s : list nat) a b k : a <> b -> D_shape_ok t (s ++ [a; b]) k = Reject ValueError.
+Proof. exact (reject_D_not_square t s a b k). Qed.
+Print Assumptions C20_reject_D_not_square.
+
+Theorem C20_reject_D_k_mismatch t m j :
+  m <> j -> D_shape_ok t [m; m] (Some [j]) = Reject ValueError.
+Proof. exact (reject_D_k_mismatch t m j). Qed.
+Print Assumptions C20_reject_D_k_mismatch.
+
+(* every mismatching dimension, of the tensor and of the shift argument *)
+Theorem C20_reject_D_apply_dims m kk kd :
+  m <> kd -> D_apply_ok (Some m) kk kd = Reject ValueError.
+Proof. exact (reject_D_apply_dims m kk kd). Qed.
+Print Assumptions C20_reject_D_apply_dims.
+
+Theorem C20_reject_D_apply_k_dims m j kd :
+  j <> kd -> D_apply_ok m (Some j) kd = Reject ValueError.
+Proof. exact (reject_D_apply_k_dims m j kd). Qed.
+Print Assumptions C20_reject_D_apply_k_dims.
+
+Theorem C20_accept_D_apply_matching kd :
+  D_apply_ok (Some kd) (Some kd) kd = Accept /\ D_apply_ok (Some kd) None kd = Accept /\
+  D_apply_ok None (Some kd) kd = Accept /\ D_apply_ok None None kd = Accept.
+Proof. exact (accept_D_apply_matching kd). Qed.
+Print Assumptions C20_accept_D_apply_matching.
+
+Theorem C20_D_apply_accept_iff m kk kd :
+  D_apply_ok m kk kd = Accept <-> (forall j, m = Some j -> j = kd) /\ (forall j, kk = Some j -> j = kd).
+Proof. exact (D_apply_accept_iff m kk kd). Qed.
+Print Assumptions C20_D_apply_accept_iff.
+
+(* an unknown parameter name at any position of order1=[...] *)
+Theorem C20_reject_unknown_parameter_list q params params2 pre x post a2 :
+  smem x params = false ->
+  parse_partials_ok q params params2 (O1List (pre ++ x :: post)) a2 = Reject ValueError.
+Proof. exact (reject_unknown_parameter_list q params params2 pre x post a2). Qed.
+Print Assumptions C20_reject_unknown_parameter_list.
+
+Theorem C20_reject_unknown_parameter_str q params params2 x a2 :
+  smem x params = false -> parse_partials_ok q params params2 (O1Str x) a2 = Reject ValueError.
+Proof. exact (reject_unknown_parameter_str q params params2 x a2). Qed.
+Print Assumptions C20_reject_unknown_parameter_str.
+
+(* an alias {variable: unknown parameter} at any position *)
+Theorem C20_reject_unknown_parameter_alias q params params2 pre v x post a2 :
+  smem x params = false ->
+  parse_partials_ok q params params2 (O1Alias (pre ++ (v, x) :: post)) a2 = Reject ValueError.
+Proof. exact (reject_unknown_parameter_alias q params params2 pre v x post a2). Qed.
+Print Assumptions C20_reject_unknown_parameter_alias.
+
+(* coefficient form {variable: {parameter: c}}: unknown parameter in any variable's map *)
+Theorem C20_reject_unknown_parameter_coef q params params2 pre v ps post x a2 :
+  In x ps -> smem x params = false ->
+  parse_partials_ok q params params2 (O1Coef (pre ++ (v, ps) :: post)) a2 = Reject ValueError.
+Proof. exact (reject_unknown_parameter_coef q params params2 pre v ps post x a2). Qed.
+Print Assumptions C20_reject_unknown_parameter_coef.
+
+(* order1=True and a pair of two unknown names at any position of order2=[pairs] *)
+Theorem C20_reject_unknown_pair q p0 params params2 pre a b post :
+  smem a (p0 :: params) = false -> smem b (p0 :: params) = false ->
+  parse_partials_ok q (p0 :: params) params2 O1True (O2Pairs (pre ++ (a, b) :: post)) = Reject ValueError.
+Proof. exact (reject_unknown_pair q p0 params params2 pre a b post). Qed.
+Print Assumptions C20_reject_unknown_pair.
+
+Theorem C20_accept_known_parameters q p0 params params2 :
+  parse_partials_ok q (p0 :: params) params2 O1True O2False = Accept.
+Proof. exact (accept_known_parameters q p0 params params2). Qed.
+Print Assumptions C20_accept_known_parameters.
+
+Theorem C20_reject_non_operator_item l fuel : has_nonop l -> simulate_ok fuel l = Reject ValueError.
+Proof. exact (reject_non_operator_item l fuel). Qed.
+Print Assumptions C20_reject_non_operator_item.
+
+Theorem C20_reject_non_operator_item_modify l fuel c : has_nonop l -> modify_ok fuel l c = Reject ValueError.
+Proof. exact (reject_non_operator_item_modify l fuel c). Qed.
+Print Assumptions C20_reject_non_operator_item_modify.
+
+(* no probe among the flattened operators, whatever the length and nesting *)
+Theorem C20_reject_no_probe fuel l leaves :
+  flatten fuel l = Some leaves -> existsb is_probe leaves = false -> simulate_ok fuel l = Reject ValueError.
+Proof. exact (reject_no_probe fuel l leaves). Qed.
+Print Assumptions C20_reject_no_probe.
+
+Theorem C20_accept_with_probe fuel l leaves :
+  flatten fuel l = Some leaves -> leaves <> [] -> bshapes_ok (map leaf_shape leaves) = true ->
+  existsb is_probe leaves = true -> simulate_ok fuel l = Accept.
+Proof. exact (accept_with_probe fuel l leaves). Qed.
+Print Assumptions C20_accept_with_probe.
+
+Theorem C20_reject_non_virtual_operator pre post : seq_check_ok (pre ++ false :: post) = Reject ValueError.
+Proof. exact (reject_non_virtual_operator pre post). Qed.
+Print Assumptions C20_reject_non_virtual_operator.
+
+Theorem C20_reject_missing_variable pre v post given :
+  smem v given = false -> seq_values_ok (pre ++ v :: post) given = Reject ValueError.
+Proof. exact (reject_missing_variable pre v post given). Qed.
+Print Assumptions C20_reject_missing_variable.
+
+Theorem C20_accept_all_variables_given vars : seq_values_ok vars vars = Accept.
+Proof. exact (accept_all_variables_given vars). Qed.
+Print Assumptions C20_accept_all_variables_given.
+
+Theorem C20_reject_unknown_order1_variable vars pre v post o2 given :
+  smem v vars = false -> not_magnitude v = true ->
+  seq_build_ok vars (pre ++ v :: post) o2 given = Reject ValueError.
+Proof. exact (reject_unknown_order1_variable vars pre v post o2 given). Qed.
+Print Assumptions C20_reject_unknown_order1_variable.
+
+(* ------------------------------------------------------------------ 14. RF pulses *)
+Theorem C20_reject_pulse_sample_above_1 pre v post dur :
+  1 < abs2 v -> pulse_ok true 1 (pre ++ v :: post) dur = Reject ValueError.
+Proof. exact (reject_pulse_sample_above_1 pre v post dur). Qed.
+Print Assumptions C20_reject_pulse_sample_above_1.
+
+Theorem C20_accept_pulse_within_unit_disc values d :
+  (forall v, In v values -> abs2 v <= 1) -> 0 <= d -> pulse_ok true 1 values (PScalar d) = Accept.
+Proof. exact (accept_pulse_within_unit_disc values d). Qed.
+Print Assumptions C20_accept_pulse_within_unit_disc.
+
+(* ------------------------------------------------------------------ allclose on complex entries *)
+Theorem C20_close_within_atol A B : A <= atol * atol -> le_sqrt_aff A B = true.
+Proof. exact (close_within_atol A B). Qed.
+Print Assumptions C20_close_within_atol.
+
+(* beyond atol and beyond the relative term: rejected (squares: (|a-b| - atol)^2 > rtol^2 |b|^2) *)
+Theorem C20_far_not_close A B :
+  atol * atol < A -> 0 < A + atol * atol - rtol * rtol * B ->
+  4 * (atol * atol) * A < (A + atol * atol - rtol * rtol * B) * (A + atol * atol - rtol * rtol * B) ->
+  le_sqrt_aff A B = false.
+Proof. exact (far_not_close A B). Qed.
+Print Assumptions C20_far_not_close.
+
+(* exact symmetry is always accepted *)
+Theorem C20_cclose_refl (a : QI) : cclose a a = true.
+Proof. exact (cclose_refl a). Qed.
+Print Assumptions C20_cclose_refl.
+
+(* non-vacuity: concrete members on the executed instance *)
+Example C20_nonvacuous :
+  duration_ok (Some [1; -(1 # 1000000); 2]) = Reject ValueError /\
+  states_ok [3%nat] [qr 1 1; qr 0 1; qr 1 1] = Reject ValueError /\
+  states_ok [3%nat] [qi 0 1 1 1; qi 0 1 (-1) 1; qr 1 1] = Accept /\
+  prepare_ok true [2; 3]%nat [3]%nat = Reject ValueError /\
+  simulate_ok 8 [IOp [1%nat]; IList [IOp [2%nat]; INonOp]; IProbe] = Reject ValueError.
+Proof. repeat split; vm_compute; reflexivity. Qed.
